@@ -34,15 +34,27 @@ Definition seg_count (count segsize : N) : N :=
 
 (* qarray_create_internal: size arithmetic.  [oshep] is the shepherd the code picks for the
    ALL_* kinds (current shepherd / random / least loaded: an oracle input). *)
+(* "while (segment_size > 0 && roundup4(segment_size*unit) + sizeof(id) > segment_bytes) segment_size--" *)
+Definition slot_end (ss us : N) : N :=
+  let p := ss * us in (if N.land p 3 =? 0 then p else p + (4 - N.land p 3)) + 2.
+
+Fixpoint shrink (fuel : nat) (ss us sb : N) : N :=
+  match fuel with
+  | O => ss
+  | S f => if (0 <? ss) && (sb <? slot_end ss us) then shrink f (ss - 1) us sb else ss
+  end.
+
 Definition layout (isd : bool) (us segpages pagesize : N) : N * N :=
   if isd then
     let sb0 := if segpages =? 0 then 16 * pagesize else segpages * pagesize in
     let ss0 := sb0 / us in
-    if sb0 - ss0 * us <? 4 then
-      (if pagesize <? us
-       then (sb0 - (us / pagesize) * pagesize) + (if us mod pagesize =? 0 then pagesize else 0)
-       else sb0, ss0 - 1)
-    else (sb0, ss0)
+    let '(sb1, ss1) :=
+      if sb0 - ss0 * us <? 4 then
+        (if pagesize <? us
+         then (sb0 - (us / pagesize) * pagesize) + (if us mod pagesize =? 0 then pagesize else 0)
+         else sb0, ss0 - 1)
+      else (sb0, ss0) in
+    (sb1, shrink (N.to_nat ss1) ss1 us sb1)
   else
     let sb0 := if segpages =? 0
                then (if 16 * pagesize <? us then N.lcm us pagesize else 16 * pagesize)
